@@ -68,9 +68,11 @@ def c11(prog, rep):
     O.rule_m3(prog, rep, om, C.C11_UNITS)
     C.rule_m4(prog, rep, C.C11_UNITS)
     H.rule_h2(prog, rep)
-    from . import chain as CH
+    from . import chain as CH, index as IX
     CH.rule_s3(prog, rep, C.C11_UNITS)
+    IX.rule_idx(prog, rep)
     rep.floor('S3', 1)
+    rep.floor('IDX', 8)
     rep.floor('M1', 6)
     rep.floor('M2', 30)
     rep.floor('M3', 50)
@@ -253,7 +255,39 @@ def c05(prog, rep):
     rep.assumptions += ['map behaviour over histories is not decided']
 
 
+def c10(prog, rep):
+    from . import index as IX, lockset as L, copy as C
+    sm = L.SharedModel(prog)
+    rep.rule('V1', 'element size, growth options and initial capacity are written only by the constructor')
+    for fld in ('objsize', 'options', 'initnum'):
+        rep.instance('V1')
+        ws = [w for w in sm.writers.get(('qvector_s', fld), []) if w[0].name not in sm.constructors['qvector_s']]
+        rep.oblige('V1', not ws, {'field': 'qvector_s.' + fld,
+                                  'writers': sorted({w[0].name for w in sm.writers.get(('qvector_s', fld), [])})})
+        for (wf, line) in ws:
+            rep.violation('V1', wf, line, 'write:%s' % fld,
+                          'vector->%s is written outside the constructor: every later element copy/shift uses the changed value '
+                          '(e.g. resize-to-zero leaving objsize 0 makes the vector unusable)' % fld)
+    rep.broken_if(('qvector_s', 'objsize') not in sm.fields, 'qvector_s.objsize not found')
+    IX.rule_idx(prog, rep)
+    IX.rule_vcount(prog, rep)
+    C.rule_m1(prog, rep, ['src/containers/qvector.c'])
+    rep.floor('V1', 3)
+    rep.floor('IDX', 8)
+    rep.floor('VC', 3)
+    rep.floor('M1', 3)
+    rep.explanation = (
+        'V1 configuration immutability (who-may-write over all units): objsize/options/initnum are written by qvector() only. IDX: '
+        'for each of the 10 element-address computations vector->data + E*objsize, must-facts from dominating comparisons (each '
+        'tagged signed/unsigned from the type-checked operands - the int-vs-size_t comparison is what rejects negative indexes) and '
+        'definition-based bounds of loop variables prove 0 <= E and E < num (E <= num for insertion). VC: num++ only after the element '
+        'store of an insertion, num-- exactly once after each successful remove_at, on every path. M1: in-place shifts are '
+        'overlap-safe. Not decided: array behaviour over histories and growth-policy arithmetic.')
+    rep.assumptions += ['capacity (max >= num) after resize is not proved', 'behaviour over histories is not decided']
+
+
 PROPS = {
+    'C10': dict(fn=c10, level='other'),
     'C05': dict(fn=c05, level='other'),
     'C01': dict(fn=c01, level='other'),
     'C04': dict(fn=c04, level='other'),
